@@ -649,5 +649,18 @@ theorem permW_of_perm {s s' : Sim} (hwf : s.WF) (h : PermEnt s s') (log : List E
 
 end
 
+/-- **not vacuous**: two different hand-out orders of a state with two stations and two vehicles are
+    related worlds - the premise of every theorem of this file -/
+example :
+    let st (i : Nat) : Station := { (default : Station) with id := i }
+    let v (i : Nat) : Vehicle := { (default : Vehicle) with id := i }
+    let s : Sim := { (default : Sim) with stations := [st 1, st 2], vehicles := [v 1, v 2] }
+    let s' : Sim := { (default : Sim) with stations := [st 2, st 1], vehicles := [v 2, v 1] }
+    s.stations ≠ s'.stations ∧ PermW ⟨s, []⟩ ⟨s', []⟩ := by
+  refine ⟨by decide, ⟨⟨⟨rfl, rfl, ?_, ?_, .refl _, .refl _, .refl _, .refl _, .refl _, .refl _, .refl _⟩, ⟨?_, ?_, ?_, ?_⟩⟩, rfl⟩⟩
+  · exact List.Perm.swap _ _ _
+  · exact List.Perm.swap _ _ _
+  all_goals decide
+
 end C01
 end Hive
